@@ -24,6 +24,19 @@ Derivations (each fails closed: an unexpected shape of the anchor gives a functi
                 data = Zcond @ true_U * np.sqrt(signal) + epsilon -> zu * sqrt_signal + eps
   make_signal   eigval[eigval < 1e-15] = 0                      -> 0 if eigval < 1e-15 else eigval
                 n_channel raised to n_cond if smaller             -> n_cond if n_cond > n_channel else n_channel
+
+Round 4 (state that survives a call), both fail closed:
+  input_writes  number of statements in every function of simulation/sim.py, in `indicator` / `centering`
+                of util/matrix.py and in the `predict` methods of the four model classes that store into
+                (a view of) an argument or into `self`: subscript / attribute stores, augmented assignments,
+                `del`, mutating method calls, `out=`; `model.predict(theta)` counts as a view of the model
+                (ModelFixed.predict hands out `self.rdm`).  0 on a tree whose simulation leaves its
+                arguments alone.
+  module_state  number of places where those functions could keep something between calls: module-level
+                statements of sim.py other than imports / function definitions / the docstring, `global` /
+                `nonlocal`, decorators (lru_cache ...), mutable default arguments, stores through a name that
+                is not local to the function (module dictionaries, function attributes).  0 on a tree
+                without hidden state.
 """
 import ast
 import os
@@ -133,6 +146,196 @@ def _kron_entry(fn, target):
     fb = entry(b, f'(k % {len_b})')
     fs = [f for f in (fa, fb) if f is not None]
     return ' * '.join(fs) if fs else '1'
+
+
+# ---- round 4: writes into arguments and module-level state -------------------------------------------
+_VIEW_METHODS = {'transpose', 'reshape', 'swapaxes', 'view', 'ravel', 'squeeze', 'items', 'values', 'keys',
+                 'get', 'flat', 'predict', 'get_vectors', 'astype_view', 'T'}
+_VIEW_FUNCS = {'np.asarray', 'np.asanyarray', 'np.transpose', 'np.swapaxes', 'np.reshape', 'np.squeeze',
+               'np.ravel', 'np.atleast_1d', 'np.atleast_2d', 'np.atleast_3d', 'np.expand_dims',
+               'np.diagonal', 'np.broadcast_to', 'np.ascontiguousarray', 'np.asfortranarray', 'np.triu',
+               'enumerate', 'zip', 'iter', 'reversed'}
+_MUTATORS = {'sort', 'fill', 'resize', 'put', 'itemset', 'setfield', 'partition', 'append', 'extend',
+             'insert', 'remove', 'pop', 'popitem', 'clear', 'update', 'setdefault', 'reverse', 'setflags',
+             '__setitem__', '__setattr__', '__delitem__'}
+_MUT_FUNCS = {'np.copyto', 'np.put', 'np.put_along_axis', 'np.putmask', 'np.place', 'np.fill_diagonal',
+              'setattr', 'delattr', 'np.divide.at', 'np.add.at'}
+_SCALAR_PARAMS = {'n_cond', 'n_part', 'n_channel', 'n_sim', 'signal', 'noise', 'use_exact_signal',
+                  'use_same_signal', 'make_exact', 'size', 'positive'}
+WRITE_SITES = []
+STATE_SITES = []
+
+
+def _is_alias(e, alias):
+    if isinstance(e, ast.Name):
+        return e.id in alias
+    if isinstance(e, (ast.Attribute, ast.Subscript, ast.Starred)):
+        return _is_alias(e.value, alias)
+    if isinstance(e, ast.Call):
+        if isinstance(e.func, ast.Attribute) and e.func.attr in _VIEW_METHODS and _is_alias(e.func.value, alias):
+            return True
+        if ast.unparse(e.func) in _VIEW_FUNCS and any(_is_alias(a, alias) for a in e.args):
+            return True
+    if isinstance(e, (ast.Tuple, ast.List)):
+        return any(_is_alias(x, alias) for x in e.elts)
+    if isinstance(e, ast.IfExp):
+        return _is_alias(e.body, alias) or _is_alias(e.orelse, alias)
+    if isinstance(e, ast.Dict):
+        return any(_is_alias(x, alias) for x in e.values if x is not None)
+    return False
+
+
+def _tnames(t):
+    if isinstance(t, ast.Name):
+        return [t.id]
+    if isinstance(t, (ast.Tuple, ast.List)):
+        return [n for e in t.elts for n in _tnames(e)]
+    if isinstance(t, ast.Starred):
+        return _tnames(t.value)
+    return []
+
+
+def _root(e):
+    while isinstance(e, (ast.Attribute, ast.Subscript, ast.Starred)):
+        e = e.value
+    if isinstance(e, ast.Call) and isinstance(e.func, ast.Attribute):
+        return _root(e.func.value)
+    return e.id if isinstance(e, ast.Name) else None
+
+
+def _store_sites(fn, pred):
+    """statements of fn that store through an expression e with pred(e)"""
+    sites = []
+    for n in ast.walk(fn):
+        if isinstance(n, ast.AugAssign) and pred(n.target, True):
+            sites.append((n.lineno, ast.unparse(n)))
+        if isinstance(n, (ast.Assign, ast.AnnAssign)):
+            for t in (n.targets if isinstance(n, ast.Assign) else [n.target]):
+                for tt in ([t] if not isinstance(t, (ast.Tuple, ast.List)) else t.elts):
+                    if isinstance(tt, (ast.Subscript, ast.Attribute)) and pred(tt.value, False):
+                        sites.append((n.lineno, ast.unparse(n)))
+        if isinstance(n, ast.Delete):
+            for t in n.targets:
+                if isinstance(t, (ast.Subscript, ast.Attribute)) and pred(t.value, False):
+                    sites.append((n.lineno, ast.unparse(n)))
+        if isinstance(n, ast.Call):
+            if isinstance(n.func, ast.Attribute) and n.func.attr in _MUTATORS and pred(n.func.value, False):
+                sites.append((n.lineno, ast.unparse(n)))
+            if ast.unparse(n.func) in _MUT_FUNCS and n.args and pred(n.args[0], False):
+                sites.append((n.lineno, ast.unparse(n)))
+            for k in n.keywords:
+                if k.arg == 'out' and pred(k.value, False):
+                    sites.append((n.lineno, ast.unparse(n)))
+    return sorted(set(sites))
+
+
+def _writes_in(fn, where, only_self=False):
+    params = [a.arg for a in fn.args.posonlyargs + fn.args.args + fn.args.kwonlyargs]
+    if fn.args.vararg:
+        params.append(fn.args.vararg.arg)
+    if fn.args.kwarg:
+        params.append(fn.args.kwarg.arg)
+    alias = ({'self'} & set(params)) if only_self else (set(params) - _SCALAR_PARAMS)
+    for _ in range(8):           # flow-insensitive closure
+        before = len(alias)
+        for n in ast.walk(fn):
+            if isinstance(n, ast.Assign) and _is_alias(n.value, alias):
+                for t in n.targets:
+                    alias.update(_tnames(t))
+            if isinstance(n, (ast.For, ast.comprehension)) and _is_alias(n.iter, alias):
+                alias.update(_tnames(n.target))
+            if isinstance(n, ast.NamedExpr) and _is_alias(n.value, alias):
+                alias.update(_tnames(n.target))
+        if len(alias) == before:
+            break
+
+    def pred(e, aug):
+        if aug and isinstance(e, ast.Name):
+            return e.id in alias          # `x /= s` on an array argument writes into it
+        return _is_alias(e, alias)
+    return [f'{where}:{ln}: {txt}' for ln, txt in _store_sites(fn, pred)]
+
+
+def _locals_of(fn):
+    loc = {a.arg for a in fn.args.posonlyargs + fn.args.args + fn.args.kwonlyargs}
+    if fn.args.vararg:
+        loc.add(fn.args.vararg.arg)
+    if fn.args.kwarg:
+        loc.add(fn.args.kwarg.arg)
+    for n in ast.walk(fn):
+        if isinstance(n, ast.Name) and isinstance(n.ctx, ast.Store):
+            loc.add(n.id)
+    return loc
+
+
+def _state_in(fn, where):
+    sites = []
+    for d in fn.decorator_list:
+        sites.append(f'{where}:{d.lineno}: decorator @{ast.unparse(d)}')
+    for d in fn.args.defaults + [k for k in fn.args.kw_defaults if k is not None]:
+        if not isinstance(d, (ast.Constant, ast.UnaryOp, ast.Name, ast.Attribute)):
+            sites.append(f'{where}:{d.lineno}: mutable default `{ast.unparse(d)}`')
+    glob = set()
+    for n in ast.walk(fn):
+        if isinstance(n, (ast.Global, ast.Nonlocal)):
+            sites.append(f'{where}:{n.lineno}: {ast.unparse(n)}')
+            glob.update(n.names)
+        if isinstance(n, (ast.FunctionDef, ast.Lambda, ast.ClassDef)) and n is not fn \
+                and isinstance(n, (ast.FunctionDef, ast.ClassDef)):
+            sites.append(f'{where}:{n.lineno}: nested definition {n.name}')
+    loc = _locals_of(fn) - glob
+
+    def pred(e, aug):
+        r = _root(e)
+        return r is not None and r not in loc
+    sites += [f'{where}:{ln}: store through a non-local name: {txt}' for ln, txt in _store_sites(fn, pred)]
+    return sites
+
+
+def _scope():
+    """(function node, label, only_self) for every function the simulation runs through"""
+    out = []
+    tree = ast.parse(open(os.path.join(SRC, 'simulation/sim.py')).read())
+    for n in tree.body:
+        if isinstance(n, ast.FunctionDef):
+            out.append((n, f'simulation/sim.py:{n.name}', False))
+    for name in ('indicator', 'centering'):
+        out.append((_func('util/matrix.py', name), f'util/matrix.py:{name}', False))
+    mtree = ast.parse(open(os.path.join(SRC, 'model/model.py')).read())
+    for cls in ('ModelFixed', 'ModelSelect', 'ModelWeighted', 'ModelInterpolate'):
+        cn = [n for n in mtree.body if isinstance(n, ast.ClassDef) and n.name == cls]
+        if len(cn) != 1:
+            raise Underivable(f'class {cls} not found in model/model.py')
+        pn = [n for n in cn[0].body if isinstance(n, ast.FunctionDef) and n.name == 'predict']
+        if len(pn) != 1:
+            raise Underivable(f'{cls}.predict not found')
+        out.append((pn[0], f'model/model.py:{cls}.predict', True))
+    names = {lab.split(':')[1] for _, lab, _ in out}
+    if not {'make_design', 'make_dataset', 'make_signal'} <= names:
+        raise Underivable('make_design / make_dataset / make_signal not all found in simulation/sim.py')
+    return out, tree
+
+
+def _input_writes():
+    del WRITE_SITES[:]
+    fns, _ = _scope()
+    for fn, lab, only_self in fns:
+        WRITE_SITES.extend(_writes_in(fn, lab, only_self))
+    return str(len(WRITE_SITES))
+
+
+def _module_state():
+    del STATE_SITES[:]
+    fns, tree = _scope()
+    for k, n in enumerate(tree.body):
+        if isinstance(n, (ast.Import, ast.ImportFrom, ast.FunctionDef)):
+            continue
+        if k == 0 and isinstance(n, ast.Expr) and isinstance(n.value, ast.Constant) and isinstance(n.value.value, str):
+            continue
+        STATE_SITES.append(f'simulation/sim.py:{n.lineno}: module-level statement `{ast.unparse(n)[:70]}`')
+    for fn, lab, _ in fns:
+        STATE_SITES.extend(_state_in(fn, lab))
+    return str(len(STATE_SITES))
 
 
 def _derive():
@@ -328,6 +531,15 @@ def _derive():
     emit('signal_draw_rows', ['n_cond', 'n_channel'], draw_shape('make_signal', 0))
     emit('signal_draw_cols', ['n_cond', 'n_channel'], draw_shape('make_signal', 1))
 
+    # ---- round 4: state that survives a call ------------------------------------------------
+    emit('input_writes', [], _input_writes)
+    emit('module_state', [], _module_state)
+    out.append('# stores into arguments / self found by the analysis (input_writes counts these):')
+    out.extend('#   ' + x for x in WRITE_SITES)
+    out.append('# places that can keep something between calls (module_state counts these):')
+    out.extend('#   ' + x for x in STATE_SITES)
+    out.append('')
+
     text = '\n'.join(out)
     if not (os.path.exists(DERIVED) and open(DERIVED).read() == text):
         with open(DERIVED + '.tmp', 'w') as f:
@@ -375,6 +587,8 @@ LEAVES = [
          params={'n_cond': 'Nat', 'n_channel': 'Nat'}, ret='Nat'),
     dict(name='signalDrawCols', file=DERIVED, func='signal_draw_cols', kind='func',
          params={'n_cond': 'Nat', 'n_channel': 'Nat'}, ret='Nat'),
+    dict(name='inputWrites', file=DERIVED, func='input_writes', kind='func', params={}, ret='Nat'),
+    dict(name='moduleState', file=DERIVED, func='module_state', kind='func', params={}, ret='Nat'),
     # native: chol_G = eigvec * np.sqrt(eigval)
     dict(name='cholEntry', file='simulation/sim.py', func='make_signal', kind='assign',
          target='chol_G', nth=0, count=1, params={'eigvec': 'A', 'sqrt_w': 'A'}, ret='A',
